@@ -79,6 +79,13 @@ Theorem C03_conj_trans : forall (R : CRing) (ts : list (nat * T4 R)) su sd,
 Proof. exact conj_trans4_opamp. Qed.
 Print Assumptions C03_conj_trans.
 
+(* MpDm.from_mps: the density operator built from a state is the diagonal matrix of its amplitudes, over ANY ring -- in
+   particular the imaginary part of a complex state is kept (fix 6697df3) *)
+Theorem C03_mpdm_from_mps : forall (R : CRing) (ts : list (nat * T3 R)) su sd,
+  opamp (from_mps4 ts) su sd = if eqbl su sd then amp ts su else r0 R.
+Proof. exact from_mps4_opamp. Qed.
+Print Assumptions C03_mpdm_from_mps.
+
 (* Mpo.apply on a state; dqs = physical dimensions of the contracted index *)
 Theorem C03_apply_state : forall (R : CRing) (W : list (nat * T4 R)) (a : list (nat * T3 R)) dqs s',
   length W = length a -> length dqs = length a -> 0 < lastdim 1 a ->
